@@ -357,7 +357,7 @@ class Text(Widget):
                 text = text.decode(get_encoding())
 
             return (
-                max(calc_width(line, 0, len(line)) for line in text.splitlines(keepends=False)),
+                max(calc_width(line, 0, len(line)) for line in text.split("\n")),
                 text.count("\n") + 1,
             )
         return 0, 1
